@@ -164,6 +164,11 @@ class Lib:
         np["abs"] = LibFunc("np.abs", _map(_abs))
         np["absolute"] = np["abs"]
         np["rint"] = LibFunc("np.rint", _map(sv.rint, "float"))
+        np["floor"] = LibFunc("np.floor", _map(lambda x: sv.to_real(sv.floor(x)), "float"))
+        np["ceil"] = LibFunc("np.ceil", _map(lambda x: sv.neg(sv.to_real(sv.floor(sv.neg(x)))), "float"))
+        np["trunc"] = LibFunc("np.trunc", _map(lambda x: sv.to_real(sv.trunc(x)), "float"))
+        np["round"] = LibFunc("np.round", self.np_round)
+        np["around"] = np["round"]
         np["array"] = LibFunc("np.array", self.np_array)
         np["asarray"] = np["array"]
         np["zeros"] = LibFunc("np.zeros", self.np_zeros)
@@ -187,6 +192,8 @@ class Lib:
         np["complex128"] = DType("complex128")
         np["bool_"] = DType("bool")
         np["linalg.inv"] = LibFunc("np.linalg.inv", self.np_inv)
+        np["linalg.solve"] = LibFunc("np.linalg.solve", lambda i, a, b: A.dot(self.np_inv(i, a), _arr(b, i)))
+        np["linalg.det"] = LibFunc("np.linalg.det", lambda i, a: A.det_small(A.to_list(_arr(a, i)), A.conc_dim(_arr(a, i).shape[0])))
         np["linalg.norm"] = LibFunc("np.linalg.norm", lambda i, a, axis=None: A.norm_l2(_arr(a, i), axis))
         self.mods["numpy"] = np
         self.mods["math"] = {
@@ -253,6 +260,14 @@ class Lib:
         else:
             raise EngineError("inv dimension > 3")
         return A.from_nested(G, "float")
+
+    def np_round(self, interp, a, decimals=0):
+        d = int(norm(decimals))
+        f = (lambda x: sv.rint(x)) if d == 0 else (lambda x: sv.round_dec(x, d))
+        a = norm(a)
+        if isinstance(a, (A.Arr, Ref, list, tuple)):
+            return A.unop(f, _arr(a, interp))
+        return f(a)
 
     def np_diff(self, interp, a):
         a = _arr(a, interp)
